@@ -8,6 +8,7 @@ blank text -> the type's empty value, money on the 10^-places grid within half
 a unit of what the definition returned (SMT query), anything else -> TypeError
 naming the line.
 """
+import enum
 import importlib
 import time
 
@@ -16,7 +17,20 @@ import z3
 from .. import common, instrument, symx, rt, bstr
 from .. import terms as tm
 
-TAGS = ['none', 'bool', 'int', 'float', 'blank', 'text', 'enum', 'other_enum']
+TAGS = ['none', 'bool', 'int', 'float', 'blank', 'text', 'enum', 'other_enum', 'int_subclass', 'str_subclass', 'float_subclass']
+
+
+class _IntSub(enum.IntEnum):
+    A = 3
+    B = 0
+
+
+class _StrSub(str):
+    pass
+
+
+class _FloatSub(float):
+    pass
 
 
 class FakeForm(object):
@@ -69,6 +83,12 @@ def task(arg):
             ret = s
         elif tag == 'enum':
             ret = symx.fresh_enum(en, 'pe')
+        elif tag == 'int_subclass':
+            ret = [_IntSub.A, _IntSub.B][e.concretize(symx.fresh_int('pk', 0, 1).term)]
+        elif tag == 'str_subclass':
+            ret = _StrSub('ab')
+        elif tag == 'float_subclass':
+            ret = [_FloatSub(1.5), _FloatSub(0.0)][e.concretize(symx.fresh_int('pk', 0, 1).term)]
         else:
             ret = symx.fresh_enum(other, 'po')
         holder['ret'] = ret
